@@ -212,6 +212,10 @@ var originRe = regexp.MustCompile(`^[0-9A-Za-z.:\[\]-]+$`)
 
 // SafeTRUPrefix recognises https://origin/, //origin/, /x (x not / or \) and about:blank#.
 func SafeTRUPrefix(s string) bool {
+	// U+017F (long s) and U+212A (Kelvin sign) are the two non-ASCII code points whose Unicode
+	// simple case folding is an ASCII letter; a case-insensitive reading of "https", "about:blank"
+	// and of host names treats them as 's' and 'k' (IDNA maps them the same way).
+	s = strings.NewReplacer("\u017f", "s", "\u212a", "k").Replace(s)
 	l := strings.ToLower(s)
 	rest := ""
 	switch {
